@@ -94,6 +94,21 @@ def replay(arg):
     for k, v in (("accuracy", a), ("precision", p), ("recall", r), ("f1", f)):
         if not ratio_eq(v, sc[k]):
             mism.append(("summary-" + k, "_summarize %s = %r, specification %s" % (k, v, sc[k]), rep))
+    # `unknown` not among the target labels: an unknown-labelled estimate paired with a ground truth is scored in that ground truth's bucket, so
+    # the totals are the same counting definitions (inputs where every unknown estimate is paired and no ground truth is unknown)
+    unk = table["unknown"]
+    pairs_ = [(r.estimated_object, r.ground_truth_object) for r in res]
+    if all(g_.semantic_label.label != unk for g_ in rg) and all(g_ is not None for e_, g_ in pairs_ if e_.semantic_label.label == unk) and any(
+            e_.semantic_label.label == unk for e_, _ in pairs_):
+        t2 = [t for t in targets if t != unk]
+        try:
+            ms2 = ClassificationMetricsScore({k: [v] for k, v in divide_objects(res, t2).items()}, divide_objects_to_num(rg, t2), t2)
+            a, p, r, f = ms2._summarize()
+            for k, v in (("accuracy", a), ("precision", p), ("recall", r), ("f1", f)):
+                if not ratio_eq(v, sc[k]):
+                    mism.append(("summary-unknown-not-target-" + k, "targets without `unknown`: %s = %r, specification %s" % (k, v, sc[k]), rep))
+        except Exception as ex:
+            mism.append(("raised", "scores with `unknown` not a target raised %r" % (ex,), rep))
     return 1, mism
 
 
